@@ -47,6 +47,10 @@ func c02Values() []c02Value {
 			LifetimeDeadline: now.Add(time.Hour), RefreshDeadline: now.Add(time.Minute), ValidDeadline: now.Add(time.Second), Groups: []string{}, AuthorizedUpstream: "a.sso.test"}, newS},
 		{"session-small", &sessions.SessionState{ProviderSlug: "idp", Email: "carol@other.test", User: "carol", AccessToken: "access-token-value-0001", RefreshToken: "refresh-token-value-0001",
 			LifetimeDeadline: now.Add(time.Hour), RefreshDeadline: now.Add(time.Minute), ValidDeadline: now.Add(time.Second), Groups: []string{"eng"}, AuthorizedUpstream: "a.sso.test"}, newS},
+		// instants that do not fall on a whole second (the grace-period start is taken from the clock as it is)
+		{"session-sub-second-instants", &sessions.SessionState{ProviderSlug: "idp", Email: "carol@other.test", User: "carol", AccessToken: "access-token-value-0003", RefreshToken: "refresh-token-value-0003",
+			LifetimeDeadline: now.Add(time.Hour + 250*time.Millisecond), RefreshDeadline: now.Add(time.Minute + time.Nanosecond), ValidDeadline: now.Add(999999999 * time.Nanosecond),
+			GracePeriodStart: now.Add(-678912345 * time.Nanosecond), Groups: []string{"eng"}, AuthorizedUpstream: "a.sso.test"}, newS},
 		{"session-unicode", &sessions.SessionState{ProviderSlug: "idp", Email: "jörg.müller@exämple.com", User: "jörg.müller", AccessToken: strings.Repeat("tökén", 40), Groups: []string{"ünïcode-group"}}, newS},
 		{"session-50-groups", &sessions.SessionState{ProviderSlug: "idp", Email: "bob@corp.test", AccessToken: strings.Repeat("A", 600), RefreshToken: strings.Repeat("R", 300), Groups: many}, newS},
 		{"session-300-groups", &sessions.SessionState{ProviderSlug: "idp", Email: "bob@corp.test", AccessToken: strings.Repeat("A", 900), RefreshToken: strings.Repeat("R", 600), Groups: veryMany}, newS},
